@@ -244,6 +244,7 @@ type scen struct {
 	ports  map[string]int
 
 	names  []string
+	flows  []string // (user, conn): the user's payload was seen on that work socket
 	wfailFrom int // control-connection writes fail from this dequeued message on; -1 never
 	reqs   []string
 	phases []string
@@ -330,6 +331,9 @@ func (sc *scen) bridge(u *userRec, wk *workRec) {
 	_, _ = wk.s.c.Write(t2)
 	ok = ok && waitFor(time.Second, func() bool { return u.s.has(t2) })
 	for _, o := range sc.works {
+		if o.s.has(t1) {
+			sc.flows = append(sc.flows, fmt.Sprintf("(%d, %d)", u.tid, o.tid))
+		}
 		if o != wk && (o.s.has(t1) || o.s.has(t2)) {
 			ok = false
 		}
@@ -622,8 +626,8 @@ func (sc *scen) render() string {
 		}
 		users = append(users, fmt.Sprintf("(%d, %d)", u.tid, code))
 	}
-	return fmt.Sprintf("CPool %s %s %s %s %s %s %s %s %s %s", hx.Z(int64(sc.cpc)), hx.Z(int64(sc.w.smax)), hx.List(sc.reqs), hx.List(dead),
-		hx.Z(int64(sc.wfailFrom)), hx.List(sc.phases), hx.Bool(sc.torn), hx.List(conns), hx.List(users), hx.List(starts))
+	return fmt.Sprintf("CPool %s %s %s %s %s %s %s %s %s %s %s", hx.Z(int64(sc.cpc)), hx.Z(int64(sc.w.smax)), hx.List(sc.reqs), hx.List(dead),
+		hx.Z(int64(sc.wfailFrom)), hx.List(sc.phases), hx.Bool(sc.torn), hx.List(conns), hx.List(users), hx.List(starts), hx.List(sc.flows))
 }
 
 func (sc *scen) cleanup() {
